@@ -1,9 +1,132 @@
 (* C25 — boxwork transitions run exit/enter actions in documented nested order.
-   Statements only; proofs are in Proofs/BoxProofs.v. *)
+   Statements only; proofs are in Proofs/BoxProofs.v.  The model (Model/Box.v)
+   is the tree after the four D28 repairs; all theorems are full strength.
+
+   Vocabulary: [pile F b] is the active pile of box b (top first);
+   [exen_split far nears fars = Some (c, no, fo)] cuts the two piles into the
+   retained boxes c, the boxes left no and the boxes arrived at fo;
+   [candidates] are the destinations returned by the goacts of the pass, top
+   box first, each box's goacts in declaration order; a candidate is
+   [admissible] when every box arrived at passes its preconditions; [chosen]
+   is the first admissible candidate; [structural] keeps the exit, re-exit,
+   re-enter (mark + act) and enter (mark + act) events of a trace. *)
 From Hio Require Import Base.Prelude Model.Box Proofs.BoxProofs.
 
-(* exen cuts the two piles at the maximal common prefix that stops at far. *)
+(* exen: c is the longest common prefix of the two piles that does not reach
+   far (far in the active pile forces exit and re-entry from far down). *)
 Theorem C25_exen_spec : forall far nears fars c no fo,
   exen_split far nears fars = Some (c, no, fo) <-> is_split far nears fars c no fo.
 Proof. intros; split; [apply exen_split_sound | apply exen_split_complete]. Qed.
 Print Assumptions C25_exen_spec.
+
+(* Every pass, for every forest, active box, goact results and failing
+   preconditions: the trace is scan ++ exits (bottom-up over the boxes left)
+   ++ re-exits (bottom-up over the retained) ++ re-enters (top-down over the
+   retained) ++ enters (top-down over the boxes arrived at) ++ redo of the new
+   pile, where scan holds afdo/godo/predo events only; rejected candidates
+   before the chosen one contribute nothing but their predo events.  The only
+   other outcome is the TypeError of a cut-less exen, which needs a candidate
+   whose pile is a strict extension of the active pile (no box tree has one,
+   see C25_trees_le6). *)
+Theorem C25_transition : forall F fs gos near st t,
+  pass F fs gos near = (st, t) ->
+  (st = Crashed /\ exists d, In d (candidates F gos near) /\ exen_split d (pile F near) (pile F d) = None) \/
+  match chosen F fs gos near with
+  | Some far =>
+    exists c no fo scan,
+      exen_split far (pile F near) (pile F far) = Some (c, no, fo) /\
+      st = Active far /\ structural scan = [] /\
+      t = scan ++ exdo F (rev no) ++ rexdo F (rev c) ++ rendo F c ++ endo F fo ++ redo F (pile F far)
+  | None =>
+    st = Active near /\ exists scan, structural scan = [] /\ t = scan ++ redo F (pile F near)
+  end.
+Proof. exact pass_spec. Qed.
+Print Assumptions C25_transition.
+
+(* ... so the exit/enter actions that run are exactly the nested order of
+   the transition taken. *)
+Theorem C25_transition_order : forall F fs gos near st t,
+  pass F fs gos near = (st, t) -> st <> Crashed ->
+  match chosen F fs gos near with
+  | Some far => exists c no fo,
+      exen_split far (pile F near) (pile F far) = Some (c, no, fo) /\
+      st = Active far /\
+      structural t = exdo F (rev no) ++ rexdo F (rev c) ++ rendo F c ++ endo F fo
+  | None => st = Active near /\ structural t = []
+  end.
+Proof. exact pass_structural. Qed.
+Print Assumptions C25_transition_order.
+
+(* A pass in which every fired transition fails an entry precondition runs
+   no exit or entry action and keeps the active box. *)
+Theorem C25_failed_pre : forall F fs gos near,
+  (forall d, In d (candidates F gos near) -> admissible F fs near d = false) ->
+  fst (pass F fs gos near) <> Crashed ->
+  fst (pass F fs gos near) = Active near /\ structural (snd (pass F fs gos near)) = [].
+Proof.
+  intros F fs gos near H Hn. apply chosen_none in H.
+  destruct (pass F fs gos near) as [st t] eqn:Hp.
+  pose proof (pass_structural _ _ _ _ _ _ Hp Hn) as S. rewrite H in S. exact S.
+Qed.
+Print Assumptions C25_failed_pre.
+
+(* The first pass enters the first pile top-down, or nothing at all when a
+   precondition fails. *)
+Theorem C25_start : forall F fs first,
+  structural (snd (start F fs first)) =
+    if snd (predo F fs (pile F first)) then endo F (pile F first) else [].
+Proof. exact start_structural. Qed.
+Print Assumptions C25_start.
+
+(* Ending exits the active pile bottom-up, every active box exactly once. *)
+Theorem C25_end : forall F b,
+  step F (Active b) End = (Done true, exdo F (rev (pile F b))) /\
+  (NoDup (pile F b) -> forall x, In x (pile F b) -> count_occ Nat.eq_dec (rev (pile F b)) x = 1).
+Proof. intros. split; [reflexivity | intros; now apply finish_once]. Qed.
+Print Assumptions C25_end.
+
+(* Each box's actions in a context run in declaration order: the i-th event
+   of an act list is the call of its i-th act (mark lists before act lists
+   by the definitions of box_rendo/box_endo). *)
+Theorem C25_declaration_order : forall F k b i d,
+  i < cnt F k b -> nth i (acts F k b) d = Ev k b i /\ length (acts F k b) = cnt F k b.
+Proof. intros. split; [now apply acts_nth | apply acts_length]. Qed.
+Print Assumptions C25_declaration_order.
+
+(* Box trees, exhaustively for every forest of at most 6 boxes (every over
+   numbered below its unders, unders in number order: every ordered forest
+   shape), every near and far: piles have no duplicates, exen finds a cut,
+   retained boxes are neither exited nor entered, and either far is active
+   and both exits and enters start at far, or no box is both exited and
+   entered. *)
+Theorem C25_trees_le6 : forall ov cs near far,
+  In ov (forests_le 6) -> near < length ov -> far < length ov ->
+  let F := forest_of ov cs in
+  NoDup (pile F near) /\
+  exists c no fo, exen_split far (pile F near) (pile F far) = Some (c, no, fo) /\
+    (forall x, In x c -> ~ In x no /\ ~ In x fo) /\
+    ((In far (pile F near) /\ hd_error no = Some far /\ hd_error fo = Some far) \/
+     (~ In far (pile F near) /\ forall x, In x no -> ~ In x fo)).
+Proof. intros. apply pair_ok_spec. now apply forests_le6_pairs. Qed.
+Print Assumptions C25_trees_le6.
+
+(* No pass crashes when exen finds a cut for every candidate. *)
+Theorem C25_no_crash : forall F fs gos near,
+  (forall d, In d (candidates F gos near) -> exen_split d (pile F near) (pile F d) <> None) ->
+  fst (pass F fs gos near) <> Crashed.
+Proof. exact no_crash. Qed.
+Print Assumptions C25_no_crash.
+
+(* Non-vacuity.  Forest 0 > (1 > (2, 3), 4), two acts in every list.  From
+   active box 3 the goact of box 1 fires to 4 (rejected: preact 0 of 4 fails)
+   and then to 2 (taken): boxes 0 and 1 are retained. *)
+Example C25_example :
+  let F := forest_of [None; Some 0; Some 1; Some 1; Some 0] [1; 1; 1; 1; 1; 0; 0; 2; 1; 1] in
+  let r := pass F [(4, 0)] [(1, 0, 4); (1, 1, 2)] 3 in
+  pile F 3 = [0; 1; 3] /\ candidates F [(1, 0, 4); (1, 1, 2)] 3 = [4; 2] /\
+  chosen F [(4, 0)] [(1, 0, 4); (1, 1, 2)] 3 = Some 2 /\ fst r = Active 2 /\
+  structural (snd r) =
+    [E 8 3 0; E 9 1 0; E 9 0 0; E 1 0 0; E 2 0 0; E 1 1 0; E 2 1 0; E 3 2 0; E 4 2 0] /\
+  snd (step F (Active 2) End) = [E 8 2 0; E 8 1 0; E 8 0 0] /\
+  In [None; Some 0; Some 1; Some 1; Some 0] (forests_le 6).
+Proof. vm_compute. repeat split. repeat (try (left; reflexivity); right). Qed.
